@@ -435,3 +435,92 @@ def first_diff(got, want):
             if p != q:
                 return f'pixel ({y},{x}) is {p}, the symbol has {q} there'
     return ''
+
+
+# ---- SVG ------------------------------------------------------------------------------------------------
+
+def lines_source(matrix, calls):
+    """Reference matrix_to_lines: the horizontal runs of dark modules, row by row, starting at (x, y)."""
+    def f(m, x, y, incby=1):
+        calls.append(('matrix_to_lines', x, y, incby, m is matrix))
+        out = []
+        for r, row in enumerate(matrix):
+            c = 0
+            while c < len(row):
+                if row[c]:
+                    e = c
+                    while e < len(row) and row[e]:
+                        e += 1
+                    out.append(((x + c, y + r * incby), (x + e, y + r * incby)))
+                    c = e
+                else:
+                    c += 1
+        return iter(out)
+    return f
+
+
+def web_rgba(text, opacity, names):
+    """RGBA (alpha 0..255) of an SVG colour value."""
+    a = 255 if opacity is None else round(float(opacity) * 255)
+    m = re.fullmatch(r'#([0-9a-fA-F]{3})', text)
+    if m:
+        return tuple(int(ch * 2, 16) for ch in m.group(1)) + (a,)
+    m = re.fullmatch(r'#([0-9a-fA-F]{6})', text)
+    if m:
+        return tuple(int(m.group(1)[i:i + 2], 16) for i in (0, 2, 4)) + (a,)
+    m = re.fullmatch(r'rgba\((\d+),\s*(\d+),\s*(\d+),\s*([0-9.]+)\)', text)
+    if m:
+        return (int(m.group(1)), int(m.group(2)), int(m.group(3)), round(float(m.group(4)) * 255))
+    if text in names:
+        return tuple(names[text]) + (a,)
+    raise Bad(f'SVG colour {text!r}')
+
+
+def decode_svg(text, names):
+    """(attributes of <svg>, transform, grid painter): paints the paths in document order onto a grid in module units."""
+    m = re.search(r'<svg([^>]*)>', text)
+    if not m or not text.rstrip('\n').endswith('</svg>'):
+        raise Bad('no <svg> element')
+    attrs = dict(re.findall(r'\s([\w:-]+)="([^"]*)"', m.group(1)))
+    transforms = re.findall(r'<(g|path)[^>]*? transform="scale\(([^)]+)\)"', text)
+    paths = []
+    for pm in re.finditer(r'<path([^>]*?)\sd="([^"]*)"/>', text):
+        pa = dict(re.findall(r'\s([\w:-]+)="([^"]*)"', pm.group(1)))
+        paths.append((pa, pm.group(2)))
+    return attrs, transforms, paths
+
+
+def paint_svg(paths, n_cols, n_rows, names):
+    grid = [[None] * n_cols for _ in range(n_rows)]
+    for pa, d in paths:
+        if 'fill' in pa:
+            mm = re.fullmatch(r'M0 0h(\d+)v(\d+)h-(\d+)z', d)
+            if not mm or (int(mm.group(1)), int(mm.group(2)), int(mm.group(3))) != (n_cols, n_rows, n_cols):
+                raise Bad(f'SVG background path {d!r} does not cover {n_cols}x{n_rows}')
+            col = web_rgba(pa['fill'], pa.get('fill-opacity'), names)
+            for r in range(n_rows):
+                for c in range(n_cols):
+                    grid[r][c] = col
+            continue
+        if 'stroke' not in pa:
+            continue        # a path without paint (transparent modules kept on request)
+        col = web_rgba(pa['stroke'], pa.get('stroke-opacity'), names)
+        x = y = 0
+        for cmd, a, b, ln in re.findall(r'([Mm])(-?[0-9.]+) (-?[0-9.]+)h(-?[0-9.]+)', d):
+            a, b, ln = float(a), float(b), float(ln)
+            if cmd == 'M':
+                x, y = a, b
+            else:
+                x, y = x + a, y + b
+            r = y - .5
+            if r != int(r) or x != int(x) or ln != int(ln) or ln <= 0:
+                raise Bad(f'SVG run at ({x}, {y}) length {ln} is not on the module grid')
+            r, x0, ln = int(r), int(x), int(ln)
+            if not (0 <= r < n_rows and 0 <= x0 and x0 + ln <= n_cols):
+                raise Bad(f'SVG run row {r} columns {x0}..{x0 + ln} outside the {n_cols}x{n_rows} symbol')
+            for c in range(x0, x0 + ln):
+                grid[r][c] = col
+            x += ln
+        if re.sub(r'[Mm]-?[0-9.]+ -?[0-9.]+h-?[0-9.]+', '', d):
+            raise Bad(f'SVG path data {d[:40]!r} has other commands than M/m/h')
+    return grid
